@@ -38,7 +38,9 @@ VARIABLES
   bufs,     \* [buffer id -> [va, n, ctx, at, atc, live]]
   claunch,  \* [context -> kernel launches sent from it]
   launches, \* kernel launches sent so far
-  lastFlush,\* [gpu -> value of `launches' when the last flush was sent to it]
+  epoch,    \* advances when a kernel launch is sent and when its answer arrives (the kernel has finished)
+  fin,      \* [ep |-> epoch right after the latest kernel finished, lo |-> highest launch number among finished kernels]
+  lastFlush,\* [gpu -> value of `epoch' when the last flush was sent to it]
   cmds,     \* [command id -> record]
   reqs,     \* [request id -> record]
   arch,     \* tuple over the mapped address space (index = va - first page + 1): byte prescribed by the
@@ -47,7 +49,7 @@ VARIABLES
   alen,     \* length of arch and sto
   taint     \* same shape: 1 = written by a kernel on a platform with caches (the storage may lag)
 
-tvars == <<l, cfg, pt, bufs, claunch, launches, lastFlush, cmds, reqs, arch, sto, alen, taint>>
+tvars == <<l, cfg, pt, bufs, claunch, launches, epoch, fin, lastFlush, cmds, reqs, arch, sto, alen, taint>>
 
 ASSUME HWInit
 
@@ -57,7 +59,7 @@ Is(e) == l <= N /\ Ev.e = e /\ l' = l + 1
 NoCfg == [plat |-> "none", gpus |-> 0, page |-> 1, magic |-> 0, cached |-> 0, real |-> 0, pt |-> 0]
 Empty == <<>>
 
-TInit == /\ l = 1 /\ cfg = NoCfg /\ pt = Empty /\ bufs = Empty /\ claunch = Empty /\ launches = 0
+TInit == /\ l = 1 /\ cfg = NoCfg /\ pt = Empty /\ bufs = Empty /\ claunch = Empty /\ launches = 0 /\ epoch = 0 /\ fin = [ep |-> 0, lo |-> 0]
          /\ lastFlush = Empty /\ cmds = Empty /\ reqs = Empty /\ arch = Empty /\ sto = Empty /\ alen = 0 /\ taint = Empty
 
 Deviation(name) == PrintT(<<"DEVIATION", name, l>>)
@@ -81,8 +83,10 @@ SumN(S) == LET RECURSIVE F(_)
 LiveBufs == {b \in DOMAIN bufs : bufs[b].live}
 BufRangeOverlaps(b, a, n) == OverlapTrue(bufs[b].va, bufs[b].va + bufs[b].n, a, a + n)
 
-\* the minimal flush requirement of the property for bytes [a, a+n) going to / coming from GPU g
-MustBeFlushed(a, n) == \E b \in LiveBufs : BufRangeOverlaps(b, a, n) /\ bufs[b].at < launches
+\* The minimal flush requirement of the property for bytes [a, a+n) of command c: a kernel that was launched
+\* after the buffer was allocated and had finished when the command started may have left dirty lines.  (A
+\* kernel that is still running, or starts later, races with the copy: the host keeps their bytes apart.)
+MustBeFlushed(c, a, n) == \E b \in LiveBufs : BufRangeOverlaps(b, a, n) /\ bufs[b].at < cmds[c].flo
 \* what the pinned tree decides for a command of context cx over [a, a+n): needFlushing
 DirtyImpl(b) == bufs[b].atc < claunch[bufs[b].ctx]
 NeedImpl(cx, a, n) == \E b \in DOMAIN bufs : /\ bufs[b].ctx = cx /\ DirtyImpl(b)
@@ -95,14 +99,14 @@ Same(vs) == UNCHANGED vs
 \* ----------------------------------------------------------------- set-up
 TReset ==
   /\ Is("Reset")
-  /\ cfg' = Ev /\ pt' = Empty /\ bufs' = Empty /\ claunch' = Empty /\ launches' = 0
+  /\ cfg' = Ev /\ pt' = Empty /\ bufs' = Empty /\ claunch' = Empty /\ launches' = 0 /\ epoch' = 0 /\ fin' = [ep |-> 0, lo |-> 0]
   /\ lastFlush' = [g \in 1..Ev.gpus |-> -1]
   /\ cmds' = Empty /\ reqs' = Empty /\ arch' = Empty /\ sto' = Empty /\ alen' = 0 /\ taint' = Empty
 
 TCtx ==
   /\ Is("Ctx") /\ Ev.ctx \notin DOMAIN claunch
   /\ claunch' = claunch @@ (Ev.ctx :> 0)
-  /\ Same(<<cfg, pt, bufs, launches, lastFlush, cmds, reqs, arch, sto, alen, taint>>)
+  /\ Same(<<cfg, pt, bufs, launches, fin, epoch, lastFlush, cmds, reqs, arch, sto, alen, taint>>)
 
 PagesOf(ps) == {ps[i][1] : i \in 1..Len(ps)}
 TAlloc ==
@@ -121,12 +125,12 @@ TAlloc ==
                       ELSE IF i <= alen THEN m[i] ELSE -2]
      IN /\ arch' = Ext(arch) /\ sto' = Ext(sto) /\ alen' = newLen
         /\ taint' = [i \in 1..newLen |-> IF i <= alen THEN taint[i] ELSE 0]
-  /\ Same(<<cfg, claunch, launches, lastFlush, cmds, reqs>>)
+  /\ Same(<<cfg, claunch, launches, fin, epoch, lastFlush, cmds, reqs>>)
 
 TFree ==
   /\ Is("Free") /\ Ev.b \in DOMAIN bufs /\ bufs[Ev.b].live
   /\ bufs' = [bufs EXCEPT ![Ev.b].live = FALSE]
-  /\ Same(<<cfg, pt, claunch, launches, lastFlush, cmds, reqs, arch, sto, alen, taint>>)
+  /\ Same(<<cfg, pt, claunch, launches, fin, epoch, lastFlush, cmds, reqs, arch, sto, alen, taint>>)
 
 \* ------------------------------------------------------------- commands
 \* a queue runs one command at a time
@@ -137,27 +141,30 @@ TStart ==
   /\ Ev.k = "h2d" => Len(Ev.d) = Ev.n
   /\ cmds' = cmds @@ (Ev.c :> [k |-> Ev.k, q |-> Ev.q, ctx |-> Ev.ctx, va |-> Ev.va, n |-> Ev.n, d |-> Ev.d,
                                kd |-> Ev.kd, ks |-> Ev.ks, st |-> "run", sent |-> {}, nsent |-> 0,
-                               lastTake |-> "none", dev |-> FALSE])
-  /\ Same(<<cfg, pt, bufs, claunch, launches, lastFlush, reqs, arch, sto, alen, taint>>)
+                               lastTake |-> "none", dev |-> FALSE,
+                               \* kernels that finished before the command started: their stores must be visible to it
+                               fep |-> fin.ep, flo |-> fin.lo])
+  /\ Same(<<cfg, pt, bufs, claunch, launches, fin, epoch, lastFlush, reqs, arch, sto, alen, taint>>)
 
-NewReq(c, k, g, off, n) == Ev.r :> [c |-> c, k |-> k, g |-> g, off |-> off, n |-> n, st |-> "sent", d |-> <<>>]
+ReqRec(c, k, g, off, n) == [c |-> c, k |-> k, g |-> g, off |-> off, n |-> n, st |-> "sent", d |-> <<>>, lo |-> 0]
+NewReq(c, k, g, off, n) == Ev.r :> ReqRec(c, k, g, off, n)
 
 TSendLaunch ==
   /\ Is("Send") /\ Ev.k = "launch" /\ Ev.r \notin DOMAIN reqs
   /\ Ev.c \in Running /\ cmds[Ev.c].k = "kern" /\ ReqsOf(Ev.c) = {}
   /\ Ev.g \in 1..cfg.gpus
-  /\ launches' = launches + 1
+  /\ launches' = launches + 1 /\ epoch' = epoch + 1
   /\ claunch' = [claunch EXCEPT ![cmds[Ev.c].ctx] = @ + 1]
-  /\ reqs' = reqs @@ NewReq(Ev.c, "launch", Ev.g, 0, 0)
-  /\ Same(<<cfg, pt, bufs, lastFlush, cmds, arch, sto, alen, taint>>)
+  /\ reqs' = reqs @@ (Ev.r :> [ReqRec(Ev.c, "launch", Ev.g, 0, 0) EXCEPT !.lo = launches + 1])
+  /\ Same(<<cfg, pt, bufs, fin, lastFlush, cmds, arch, sto, alen, taint>>)
 
 TSendFlush ==
   /\ Is("Send") /\ Ev.k = "flush" /\ Ev.r \notin DOMAIN reqs
   /\ Ev.c \in Running /\ cmds[Ev.c].k \in {"h2d", "d2h"}
   /\ Ev.g \in 1..cfg.gpus
-  /\ lastFlush' = [lastFlush EXCEPT ![Ev.g] = launches]
+  /\ lastFlush' = [lastFlush EXCEPT ![Ev.g] = epoch]
   /\ reqs' = reqs @@ NewReq(Ev.c, "flush", Ev.g, 0, 0)
-  /\ Same(<<cfg, pt, bufs, claunch, launches, cmds, arch, sto, alen, taint>>)
+  /\ Same(<<cfg, pt, bufs, claunch, launches, fin, epoch, cmds, arch, sto, alen, taint>>)
 
 \* where a piece sits in its command
 PageOfPP(pp) == CHOOSE p \in DOMAIN pt : pt[p].pp = pp
@@ -182,8 +189,8 @@ TSendPiece ==
   /\ Ev.c \in Running /\ cmds[Ev.c].k = Ev.k
   /\ LET c == Ev.c
          off == PieceOff(c)
-         flushed == lastFlush[Ev.g] = launches
-         must == MustBeFlushed(RuleVA(c, off), RuleN(c))
+         flushed == lastFlush[Ev.g] >= cmds[c].fep      \* flushed after the last of those kernels finished
+         must == MustBeFlushed(c, RuleVA(c, off), RuleN(c))
      IN /\ PieceOK(c, off)
         /\ \/ /\ must => flushed
               /\ cmds' = [cmds EXCEPT ![c].sent = @ \cup {<<off, Ev.n>>}, ![c].nsent = @ + Ev.n]
@@ -194,11 +201,15 @@ TSendPiece ==
                  THEN Deviation("overlap_containment_gap") ELSE Deviation("dirty_per_context")
               /\ cmds' = [cmds EXCEPT ![c].sent = @ \cup {<<off, Ev.n>>}, ![c].nsent = @ + Ev.n, ![c].dev = TRUE]
         /\ reqs' = reqs @@ NewReq(c, Ev.k, Ev.g, off, Ev.n)
-  /\ Same(<<cfg, pt, bufs, claunch, launches, lastFlush, arch, sto, alen, taint>>)
+  /\ Same(<<cfg, pt, bufs, claunch, launches, fin, epoch, lastFlush, arch, sto, alen, taint>>)
 
+\* the answer to a launch means the kernel has finished: flushes sent before this point do not cover its stores
 TRsp ==
   /\ Is("Rsp") /\ Ev.r \in DOMAIN reqs /\ reqs[Ev.r].st = "sent"
   /\ reqs' = [reqs EXCEPT ![Ev.r].st = "ans", ![Ev.r].d = Ev.d]
+  /\ epoch' = IF reqs[Ev.r].k = "launch" THEN epoch + 1 ELSE epoch
+  /\ fin' = IF reqs[Ev.r].k = "launch"
+            THEN [ep |-> epoch + 1, lo |-> IF reqs[Ev.r].lo > fin.lo THEN reqs[Ev.r].lo ELSE fin.lo] ELSE fin
   /\ Same(<<cfg, pt, bufs, claunch, launches, lastFlush, cmds, arch, sto, alen, taint>>)
 
 TTake ==
@@ -206,7 +217,7 @@ TTake ==
   /\ reqs[Ev.r].c \in Running
   /\ reqs' = [reqs EXCEPT ![Ev.r].st = "taken"]
   /\ cmds' = [cmds EXCEPT ![reqs[Ev.r].c].lastTake = IF reqs[Ev.r].k = "flush" THEN "flush" ELSE "piece"]
-  /\ Same(<<cfg, pt, bufs, claunch, launches, lastFlush, arch, sto, alen, taint>>)
+  /\ Same(<<cfg, pt, bufs, claunch, launches, fin, epoch, lastFlush, arch, sto, alen, taint>>)
 
 \* every byte of the range was requested, answered and the answer consumed
 AllMoved(c) == /\ SumN(Pieces(c)) = cmds[c].n
@@ -237,16 +248,16 @@ TDone ==
                   /\ arch' = Over(arch, cmds[c].kd, [i \in 1..n |-> arch[Ix(cmds[c].ks) + i - 1]])
                   /\ taint' = IF cfg.cached = 1 THEN Over(taint, cmds[c].kd, [i \in 1..n |-> 1]) ELSE taint
         /\ cmds' = [cmds EXCEPT ![c].st = "done"]
-  /\ Same(<<cfg, pt, bufs, claunch, launches, lastFlush, reqs, sto, alen>>)
+  /\ Same(<<cfg, pt, bufs, claunch, launches, fin, epoch, lastFlush, reqs, sto, alen>>)
 
 \* the emulator's memory path (StorageAccessor) on the same page table and storage
 TAccW ==
   /\ Is("AccW") /\ Len(Ev.d) = Ev.n /\ Holds(\A a \in Range(Ev.va, Ev.n) : Known(a))
   /\ arch' = Over(arch, Ev.va, Ev.d)
-  /\ Same(<<cfg, pt, bufs, claunch, launches, lastFlush, cmds, reqs, sto, alen, taint>>)
+  /\ Same(<<cfg, pt, bufs, claunch, launches, fin, epoch, lastFlush, cmds, reqs, sto, alen, taint>>)
 TAccR ==
   /\ Is("AccR") /\ Len(Ev.d) = Ev.n /\ Holds(\A i \in 1..Ev.n : ArchIs(Ev.va + i - 1, Ev.d[i]))
-  /\ Same(<<cfg, pt, bufs, claunch, launches, lastFlush, cmds, reqs, arch, sto, alen, taint>>)
+  /\ Same(<<cfg, pt, bufs, claunch, launches, fin, epoch, lastFlush, cmds, reqs, arch, sto, alen, taint>>)
 
 \* ----------------------------------------------------------------- storage
 \* Every byte of every live buffer, inside and outside the copied ranges, is
@@ -263,14 +274,14 @@ TSto ==
      IN /\ Holds(Running = {} => \A b \in LiveBufs : \A i \in Ix(bufs[b].va)..(Ix(bufs[b].va) + bufs[b].n - 1) :
                                      (taint[i] = 0 /\ arch[i] # -1) => new[i] = arch[i])
         /\ sto' = new
-  /\ Same(<<cfg, pt, bufs, claunch, launches, lastFlush, cmds, reqs, arch, alen, taint>>)
+  /\ Same(<<cfg, pt, bufs, claunch, launches, fin, epoch, lastFlush, cmds, reqs, arch, alen, taint>>)
 
 \* ------------------------------------------------------------------- ends
 \* the engine ran dry: nothing may be left behind
 TQuiesce ==
   /\ Is("Quiesce") /\ Ev.pend = <<>> /\ Running = {}
   /\ \A r \in DOMAIN reqs : reqs[r].st = "taken"
-  /\ Same(<<cfg, pt, bufs, claunch, launches, lastFlush, cmds, reqs, arch, sto, alen, taint>>)
+  /\ Same(<<cfg, pt, bufs, claunch, launches, fin, epoch, lastFlush, cmds, reqs, arch, sto, alen, taint>>)
 
 \* as implemented: processFlushReturn removes the last request of a command without completing it
 HungByFlush(c) == /\ c \in Running /\ cmds[c].k \in {"h2d", "d2h"} /\ AllMoved(c)
@@ -283,7 +294,7 @@ TQuiesceHung ==
   /\ \A i \in 1..Len(Ev.pend) : HungByFlush(Ev.pend[i]) \/ HungEmpty(Ev.pend[i])
   /\ \A c \in Running : HungByFlush(c) \/ HungEmpty(c)
   /\ IF \E c \in Running : HungEmpty(c) THEN Deviation("empty_copy_no_complete") ELSE Deviation("flush_rsp_no_complete")
-  /\ Same(<<cfg, pt, bufs, claunch, launches, lastFlush, cmds, reqs, arch, sto, alen, taint>>)
+  /\ Same(<<cfg, pt, bufs, claunch, launches, fin, epoch, lastFlush, cmds, reqs, arch, sto, alen, taint>>)
 
 \* as implemented: Context.removeFreedBuffers (called by a flushing D2H) mutates the slice it ranges over
 FreedOf(cx) == {b \in DOMAIN bufs : bufs[b].ctx = cx /\ ~bufs[b].live}
@@ -296,7 +307,7 @@ TPanicFreed ==
                         /\ Cardinality(FreedOf(cmds[c].ctx)) >= 2
                         /\ LastOf(cmds[c].ctx) \in FreedOf(cmds[c].ctx)
   /\ Deviation("remove_freed_buffers_panic")
-  /\ Same(<<cfg, pt, bufs, claunch, launches, lastFlush, cmds, reqs, arch, sto, alen, taint>>)
+  /\ Same(<<cfg, pt, bufs, claunch, launches, fin, epoch, lastFlush, cmds, reqs, arch, sto, alen, taint>>)
 
 TNext == \/ TReset \/ TCtx \/ TAlloc \/ TFree \/ TStart
          \/ TSendLaunch \/ TSendFlush \/ TSendPiece \/ TRsp \/ TTake \/ TDone
